@@ -27,6 +27,8 @@ using namespace hz;
 namespace nostd     = opentelemetry::nostd;
 namespace trace_api = opentelemetry::trace;
 namespace sdktrace  = opentelemetry::sdk::trace;
+#include <sys/wait.h>
+#include <unistd.h>
 namespace sdkcommon = opentelemetry::sdk::common;
 namespace context   = opentelemetry::context;
 using opentelemetry::sdk::resource::Resource;
@@ -38,7 +40,8 @@ enum OpKind
   OP_START = 1,    // a=dst span index b=mode c=ref d=other task
   OP_SCOPE_BEGIN,  // a=span index b=scope index
   OP_SCOPE_END,    // a=scope index
-  OP_END           // a=span index
+  OP_END,          // a=span index
+  OP_FORK          // a=number of span pairs the forked child starts
 };
 enum Mode
 {
@@ -456,6 +459,95 @@ void do_start(TaskState &ts, const Op &op)
   rec.expect_sampler_attr = recording && res.attributes && res.attributes->count("sampler.attr");
 }
 
+// fork(): the calling task forks the process for real (the only multi-process event the SDK
+// reacts to: the thread-local id generator re-seeds itself in the child through an at-fork
+// handler). The child - alone, no schedule points - starts root spans and children of a remote
+// parent and sends their ids back; ids handed out on either side of a fork must still be
+// fresh and unique, so the child's ids join the run's id sets and whatever the parent
+// generates afterwards is checked against them.
+void do_fork(TaskState &ts, const Op &op)
+{
+  (void)ts;
+  if (W->c->knob("idgen", 0))
+    return;  // the sequential stub generator is not fork-aware (nor meant to be)
+  int n = 1 + (int)(op.a % 3);
+  int pfd[2];
+  if (pipe(pfd) != 0)
+    return;
+  int pid = vsim::fork_task();
+  if (pid == 0)
+  {
+    close(pfd[0]);
+    std::string out;
+    for (int k = 0; k < n; ++k)
+    {
+      trace_api::StartSpanOptions ro;
+      context::Context cx;
+      ro.parent = cx.SetValue(trace_api::kIsRootSpanKey, true);
+      auto *s1 = new nostd::shared_ptr<trace_api::Span>(W->tracer->StartSpan("forked-root", ro));
+      auto c1  = (*s1)->GetContext();
+      out += "R " + tid(c1.trace_id()) + " " + sid(c1.span_id()) + "\n";
+      trace_api::StartSpanOptions co;
+      co.parent = W->remotes[1];
+      auto *s2 = new nostd::shared_ptr<trace_api::Span>(W->tracer->StartSpan("forked-child", co));
+      auto c2  = (*s2)->GetContext();
+      out += "C " + tid(c2.trace_id()) + " " + sid(c2.span_id()) + "\n";
+    }
+    ssize_t wr = write(pfd[1], out.data(), out.size());
+    _exit(wr == (ssize_t)out.size() ? 0 : 98);
+  }
+  close(pfd[1]);
+  std::string in;
+  char buf[512];
+  ssize_t got;
+  while ((got = read(pfd[0], buf, sizeof buf)) > 0)
+    in.append(buf, (size_t)got);
+  close(pfd[0]);
+  int status = 0;
+  if (pid > 0)
+    waitpid(pid, &status, 0);
+  if (pid <= 0 || !WIFEXITED(status) || WEXITSTATUS(status) != 0)
+  {
+    vsim::probe("ident.fork_child_failed");
+    return;
+  }
+  vsim::probe("fault.fork");
+  size_t pos = 0;
+  int lines  = 0;
+  while (pos < in.size())
+  {
+    size_t e = in.find('\n', pos);
+    if (e == std::string::npos)
+      break;
+    std::string line = in.substr(pos, e - pos);
+    pos              = e + 1;
+    if (line.size() != 2 + 32 + 1 + 16)
+      continue;
+    ++lines;
+    bool root      = line[0] == 'R';
+    std::string t  = line.substr(2, 32), sp = line.substr(35, 16);
+    if (sp == "0000000000000000" || t == "00000000000000000000000000000000")
+      vsim::report("C05.invalid_context", "a span started in a forked child has a zero id");
+    if (!W->span_ids.insert(sp).second)
+      vsim::report("C05.span_id_not_unique",
+                   fmt("span id %s handed out in a forked child had already been handed out in "
+                       "the parent process",
+                       sp.c_str()));
+    if (root)
+    {
+      if (W->trace_ids.count(t))
+        vsim::report("C05.trace_id_not_fresh",
+                     fmt("root span in a forked child reuses trace id %s", t.c_str()));
+      W->trace_ids.insert(t);
+    }
+    else if (t != tid(W->remotes[1].trace_id()))
+      vsim::report("C05.trace_id_not_inherited",
+                   fmt("child span started in a forked child has trace id %s", t.c_str()));
+  }
+  if (lines != 2 * n)
+    vsim::probe("ident.fork_child_failed");
+}
+
 void run_program(int idx, const TaskProg &t)
 {
   TaskState ts;
@@ -492,6 +584,9 @@ void run_program(int idx, const TaskProg &t)
           ts.scopes[op.a].reset();
           ts.active.pop_back();
         }
+        break;
+      case OP_FORK:
+        do_fork(ts, op);
         break;
       case OP_END:
         if (mine[op.a].started && !mine[op.a].ended)
@@ -534,6 +629,7 @@ void run_program(int idx, const TaskProg &t)
 void generate(const std::string &, Rng &wl, Rng &fl, Case &c)
 {
   vsim::SimKnobs sk;
+
   sk.faults_on   = false;
   sk.typical_len = 300;
   int ntasks     = (int)wl.range(1, 3);
@@ -625,6 +721,22 @@ void generate(const std::string &, Rng &wl, Rng &fl, Case &c)
         p.ops.push_back({OP_END, unended[pos], 0, 0, 0});
         unended.erase(unended.begin() + pos);
       }
+    }
+    // a fork somewhere after the first StartSpan, followed by spans the parent starts afterwards
+    if (wl.chance(0.04) && nspan > 0 && nspan + 2 <= kSpans)
+    {
+      size_t first = 0;
+      while (first < p.ops.size() && p.ops[first].kind != OP_START)
+        ++first;
+      size_t at = first + 1 + wl.below(p.ops.size() - first);
+      std::vector<Op> tail(p.ops.begin() + at, p.ops.end());
+      p.ops.resize(at);
+      p.ops.push_back({OP_FORK, (int64_t)wl.below(3), 0, 0, 0});
+      p.ops.push_back({OP_START, nspan++, wl.chance(0.5) ? M_IMPLICIT : M_CONTEXT_ROOT, 0, 0});
+      p.ops.push_back({OP_START, nspan++, wl.chance(0.5) ? M_SPANCTX_REMOTE : M_CONTEXT_ROOT, 1, 0});
+      p.ops.insert(p.ops.end(), tail.begin(), tail.end());
+      if (c.stratum.find(".fork") == std::string::npos)
+        c.stratum += ".fork";
     }
     c.tasks.push_back(p);
   }
@@ -733,6 +845,9 @@ std::string describe_op(const Case &, int, const Op &op)
       return fmt("destroy scope[%lld]", (long long)op.a);
     case OP_END:
       return fmt("span[%lld]->End()", (long long)op.a);
+    case OP_FORK:
+      return fmt("fork(): the child starts %lld root spans and %lld children of a remote parent",
+                 1 + (long long)(op.a % 3), 1 + (long long)(op.a % 3));
   }
   return "?";
 }
